@@ -26,8 +26,9 @@ Proof. exact handle_unsupported. Qed.
 Print Assumptions C03_unsupported.
 
 (* Supported queries: REFUSED when no rule serves it, the rule's rcode for a reject rule, SERVFAIL when the selected
-   upstream fails (or the deadline passes: same branch), otherwise the upstream's reply relayed (rcode, flags,
-   sections).  Locally generated responses carry exactly the query's question, lower-cased. *)
+   upstream fails (or the deadline passes: same branch) or replies to another question than the one asked, otherwise
+   the upstream's reply relayed (rcode, flags, sections).  Locally generated responses carry exactly the query's
+   question, lower-cased. *)
 Theorem C03_table : forall matches rules ecs up (m : msg) (client : addr) (q : question) (qs : list question),
   unsupported m = false -> m_qs m = q :: qs ->
   let r := fst (handle matches rules ecs up m client) in let eff := snd (handle matches rules ecs up m client) in
@@ -40,10 +41,13 @@ Theorem C03_table : forall matches rules ecs up (m : msg) (client : addr) (q : q
       eff = [EQuery u (Ok w)] /\
       match up u (Ok w) with
       | UFail => h_rcode (m_hdr r) = RCodeServFail /\ m_qs r = [lower_q q] /\ m_an r = [] /\ m_ns r = []
-      | UReply rep => h_rcode (m_hdr r) = h_rcode (m_hdr rep) /\ m_qs r = m_qs rep /\
-                      m_an r = m_an rep /\ m_ns r = m_ns rep /\
-                      h_aa (m_hdr r) = h_aa (m_hdr rep) /\ h_tc (m_hdr r) = h_tc (m_hdr rep) /\
-                      h_ad (m_hdr r) = h_ad (m_hdr rep) /\ h_cd (m_hdr r) = h_cd (m_hdr rep)
+      | UReply rep =>
+        if reply_question_ok (lower_q q) rep then
+          h_rcode (m_hdr r) = h_rcode (m_hdr rep) /\ m_qs r = m_qs rep /\
+          m_an r = m_an rep /\ m_ns r = m_ns rep /\
+          h_aa (m_hdr r) = h_aa (m_hdr rep) /\ h_tc (m_hdr r) = h_tc (m_hdr rep) /\
+          h_ad (m_hdr r) = h_ad (m_hdr rep) /\ h_cd (m_hdr r) = h_cd (m_hdr rep)
+        else h_rcode (m_hdr r) = RCodeServFail /\ m_qs r = [lower_q q] /\ m_an r = [] /\ m_ns r = []
       end
     | _ => h_rcode (m_hdr r) = RCodeServFail /\ eff = []
     end
@@ -58,23 +62,33 @@ Theorem C03_one_write : forall (l : listener) (q r : msg), length (respond l q r
 Proof. intros. split; [apply respond_one|apply refuse_one]. Qed.
 Print Assumptions C03_one_write.
 
-(* The question clause for RELAYED replies ("at most one question equal to the query's first question") is FALSE of
-   the faithful model (finding K4): a reply carrying a foreign question is relayed verbatim. *)
+(* The question clause, for EVERY query, configuration and upstream behaviour: the response carries no question, or
+   exactly one, equal ASCII-case-insensitively to the query's first question.  (Before the fix of finding K4 this was
+   refuted: a reply carrying a foreign question was relayed verbatim; [forward] now treats it as a failed exchange.) *)
+Theorem C03_question : forall matches rules ecs up (m : msg) (client : addr),
+  match m_qs (fst (handle matches rules ecs up m client)), m_qs m with
+  | [], _ => True
+  | [qr], q :: _ => q_eq_ci qr q = true
+  | _, _ => False
+  end.
+Proof. exact handle_question. Qed.
+Print Assumptions C03_question.
+
+(* [q_eq_ci] folds wire-format names octet-wise; on well-formed names that is ToLowerName (label-wise folding) *)
+Theorem C03_fold_is_label_fold : forall n, Codec.NameProofs.wf_name n -> to_lower_name n = map lower n.
+Proof. exact to_lower_name_wf_fold. Qed.
+Print Assumptions C03_fold_is_label_fold.
+
+(* the former K4 witness: a reply about b. to a query about a. is now answered SERVFAIL with the query's question *)
 Definition k4_query : msg :=
   mkMsg (mkHeader 7 false 0 false false true false false false 0) [mkQuestion [1; 97]%N 1 1] [] [] [].
 Definition k4_reply : msg :=
   mkMsg (mkHeader 7 true 0 false false true true false false 0) [mkQuestion [1; 98]%N 1 1]
         [mkRR [1; 98]%N 1 1 60 4 (RA [6; 6; 6; 6]%N)] [] [].
-Theorem C03_question_relayed_refuted :
-  exists matches rules ecs up m client qr,
-    unsupported m = false /\ m_qs (fst (handle matches rules ecs up m client)) = [qr] /\
-    forall q, In q (m_qs m) -> q_eq_ci qr q = false.
-Proof.
-  exists (fun _ _ => false), [mkRule None 0 (Some 0)], false, (fun _ _ => UReply k4_reply), k4_query, ANone,
-         (mkQuestion [1; 98]%N 1 1).
-  split; [reflexivity|]. split; [reflexivity|]. intros q [<-|[]]. reflexivity.
-Qed.
-Print Assumptions C03_question_relayed_refuted.
+Example C03_k4_example :
+  let r := fst (handle (fun _ _ => false) [mkRule None 0 (Some 0)] false (fun _ _ => UReply k4_reply) k4_query ANone) in
+  h_rcode (m_hdr r) = 2%N /\ m_qs r = [mkQuestion [1; 97]%N 1 1] /\ m_an r = [].
+Proof. vm_compute. auto. Qed.
 
 (* non-vacuity: a forwarded query whose upstream fails gets SERVFAIL with its own lower-cased question *)
 Example C03_example :
